@@ -69,6 +69,18 @@ CHECKS = {
             'Default context databases and default tolerant parsing; termination decided by the '
             'read-count bound.',
             'DESIGN.md 5 C07'),
+    'C08': ('exploration',
+            'round-trip oracle (encode then latex2text) over a pinned invertible alphabet: all '
+            'single characters, neighbour-class pair matrix, Hypothesis strings; thorough: all '
+            'ordered pairs',
+            'Every pinned invertible character singly, representative pairs for every ordered '
+            'pair of neighbour classes (replacement ends in control word / control symbol / brace '
+            '/ char x next is letter / digit / space / newline / active / bracket / star / '
+            'non-ASCII / punctuation) and 20k (quick) / 320k (thorough) random strings, under 4 '
+            'brace protections x 2 whitespace policies; thorough also all ~1.6M ordered pairs.',
+            'Alphabet pinned in pv/data/c08_invertible.txt (excluded characters listed with class '
+            'in c08_excluded.txt); strings are NFC-stable, ligature-free, whitespace-normal.',
+            'DESIGN.md 5 C08'),
     'C10': ('exploration',
             'bounded-exhaustive strings differentially against a recursive-descent reference '
             'parser + Hypothesis documents with an AST-derived per-offset mode map',
